@@ -11,9 +11,38 @@
   names of all files being parsed are on the path; total by well-founded recursion, no fuel) and
   `parseFileCur` (the code as found: only the root's name is ever in `parsedFiles`; needs fuel).
   `Cfg.tree.includePath` selects which one `parseFile` runs.
+
+  HOW "EVERY CYCLE IS REPORTED" IS TO BE READ.  A parse stops at its FIRST fault, in depth-first,
+  line order.  A cycle that lies behind an earlier fault (a refused line, a missing file) is never
+  reached, and the report is then that earlier fault, not a RecursiveIncludeError (example
+  `fsBadThenCycle` below).  What holds, and is proved in the section "Completeness", is: the outcome
+  of the repaired parser is EXACTLY the first fault of the walk `Walk` (a specification that does
+  not mention the parser's include closure); it is a RecursiveIncludeError iff that first fault is a
+  `$INCLUDE` of a file on the current include path; a graph with a reachable cycle is never
+  accepted; and on pure include graphs (nothing but `$INCLUDE`s of existing files: there is no other
+  fault to meet) RecursiveIncludeError is reported iff a cycle is reachable from the root.
+
+  FILE IDENTITY (documented assumption).  The model identifies a file with the `$INCLUDE` argument
+  string: `FS.lookup name`, and the include path / `parsedFiles` holds these strings.  parser.go
+  (lines 216-217) instead looks up `incFile.Name()` of the OPENED handle in `parsedFiles`, and
+  `Parse` (line 47-49) seeds the set with `f.Name()` of the root.  Every theorem of this file
+  therefore carries the hypothesis
+      for every file the opener returns, `Name()` = the name it was requested under
+  (and `ParseFile`'s root likewise).  This is true of the harness's in-memory opener.  It is NOT
+  true of `FileSystemOpener`: there `Name()` is the absolute joined path, so
+    * two spellings of one path that `filepath.Join` / `filepath.Abs` normalise to the same string
+      (`a`, `./a`, `x/../a`) are ONE file for Go but two files for the model: Go reports a cycle
+      through them, the model (on these strings) would not;
+    * conversely Go's check is purely by that name: a cycle through a symbolic link or a hard link
+      (two names, one inode) is not detected by Go either, and RecursiveIncludeError.Filename is
+      `Name()`, not the argument.
+  For such openers the theorems apply to the graph whose vertices are the `Name()` strings, provided
+  the opener is a function of them; nothing is claimed about inode identity.
 -/
 import RV.Model.DictParser
 import RV.Proofs.DictInclude
+import RV.Proofs.DictWalk
+import RV.Proofs.DictGuards
 namespace RV.C15
 open RV RV.Dict RV.DictParser
 
@@ -108,10 +137,363 @@ theorem nonroot_cycle_reported_fixed (ign : Bool) :
     (parseFile Cfg.repaired ign fsNonRootCycle nmRoot).1 = some (.recursive nmB 1 nmA) :=
   nonroot_cycle_fixed ign
 
+/-! ### Completeness: the outcome is the first fault of the depth-first, line-order walk
+
+`Walk cfg ign fs path tooLong ls lineNo vb st r` (RV.Proofs.DictWalk) is a big-step SPECIFICATION of
+the include walk, one rule per situation, which mentions neither `includeWith` nor `parseFileFix`;
+`WalkFile cfg ign fs root r` is the walk of the root file from line 1.  `r = (none, st)`: the walk
+reaches the end; `r = (some flt, st)`: `flt : Fault` is the first fault met - its include path
+(innermost first, root last), its 1-based line, its kind (`scannerError`, `unclosedBlock`,
+`badLine c`, `includeMissing n`, `includeOnPath n` = THE CYCLE) - and `Fault.report` is what the
+parser has to return for it.  All theorems of this section are for the repaired include rule
+(`cfg.includePath = true`), except the log theorems, which hold for both rules. -/
+
+/-- the walk of an existing root file always has an outcome … -/
+theorem walk_has_outcome (cfg : Cfg) (ign : Bool) (fs : FS) (root text : Bytes) (hl : fs.lookup root = some text) :
+    ∃ r, WalkFile cfg ign fs root r :=
+  walkFile_total cfg ign fs root text hl
+
+/-- … and only one: "the first fault" is well defined -/
+theorem first_fault_unique (cfg : Cfg) (ign : Bool) (fs : FS) (root : Bytes) (r r' : Option Fault × St)
+    (h : WalkFile cfg ign fs root r) (h' : WalkFile cfg ign fs root r') : r = r' :=
+  walkFile_unique h h'
+
+/-- COMPLETENESS (repaired): the parser returns exactly the report of the first fault of the walk
+    (success if there is none), with the walk's state, the root file closed -/
+theorem outcome_is_first_fault (cfg : Cfg) (ign : Bool) (fs : FS) (root text : Bytes) (h : cfg.includePath = true)
+    (hl : fs.lookup root = some text) :
+    ∃ o st', WalkFile cfg ign fs root (o, st') ∧
+      parseFile cfg ign fs root = (o.map Fault.report, st'.closed root) :=
+  parseFile_eq_walk cfg ign fs root text h hl
+
+/-- the same, from the walk to the parser -/
+theorem first_fault_is_outcome (cfg : Cfg) (ign : Bool) (fs : FS) (root : Bytes) (h : cfg.includePath = true)
+    (o : Option Fault) (st' : St) (hw : WalkFile cfg ign fs root (o, st')) :
+    parseFile cfg ign fs root = (o.map Fault.report, st'.closed root) :=
+  walkFile_sound hw h
+
+/-- the same as an equivalence on results -/
+theorem outcome_iff_walk (cfg : Cfg) (ign : Bool) (fs : FS) (root text : Bytes) (h : cfg.includePath = true)
+    (hl : fs.lookup root = some text) (res : Result) :
+    parseFile cfg ign fs root = res ↔
+      ∃ o st', WalkFile cfg ign fs root (o, st') ∧ res = (o.map Fault.report, st'.closed root) :=
+  parseFile_walk_iff cfg ign fs root text h hl res
+
+/-- what `Fault.report` turns into a RecursiveIncludeError: the faults `includeOnPath`, and only they -/
+theorem report_recursive_iff (flt : Fault) (file n : Bytes) (l : Nat) :
+    flt.report = .recursive file l n ↔ flt.kind = .includeOnPath n ∧ flt.path.headD [] = file ∧ flt.line = l :=
+  RV.DictParser.report_recursive_iff flt file n l
+
+/-- (repaired) RecursiveIncludeError `{File f, Line l, Filename n}` is reported IF AND ONLY IF the
+    first fault of the walk is the directive `$INCLUDE n` at line `l` of `f`, `n` being on the
+    include path at that moment -/
+theorem recursive_iff_first_fault_on_path (cfg : Cfg) (ign : Bool) (fs : FS) (root f n : Bytes) (l : Nat)
+    (h : cfg.includePath = true) :
+    (parseFile cfg ign fs root).1 = some (.recursive f l n) ↔
+      ∃ flt st', WalkFile cfg ign fs root (some flt, st') ∧ flt.kind = .includeOnPath n ∧
+        flt.path.headD [] = f ∧ flt.line = l :=
+  parseFile_recursive_iff cfg ign fs root f n l h
+
+/-- (repaired) if the walk's first fault is `includeOnPath n`, the result is the
+    RecursiveIncludeError for `n` at that file and line (no other class); if it is of another kind,
+    the result is not a RecursiveIncludeError (whatever cycles lie further on) -/
+theorem first_fault_on_path_only_recursive (cfg : Cfg) (ign : Bool) (fs : FS) (root : Bytes)
+    (h : cfg.includePath = true) (flt : Fault) (st' : St) (hw : WalkFile cfg ign fs root (some flt, st')) :
+    (∀ n, flt.kind = .includeOnPath n →
+      (parseFile cfg ign fs root).1 = some (.recursive (flt.path.headD []) flt.line n)) ∧
+    ((∀ n, flt.kind ≠ .includeOnPath n) → ∀ f l n, (parseFile cfg ign fs root).1 ≠ some (.recursive f l n)) :=
+  first_fault_decides_recursive cfg ign fs root h flt st' hw
+
+/-- (repaired) a reported RecursiveIncludeError `{File f, Line l, Filename n}` names a file on the
+    include path of that moment: there is a path with head `f` and member `n`, which is a
+    duplicate-free chain of include edges (`IncludeChain`: each member is `$INCLUDE`d by the next)
+    ending in the root, all of whose members are files; `n` exists; and line `l`, counted from 1, of
+    `f` is a directive `$INCLUDE n` -/
+theorem recursive_names_file_on_path (cfg : Cfg) (ign : Bool) (fs : FS) (root f n : Bytes) (l : Nat)
+    (h : cfg.includePath = true) (hr : (parseFile cfg ign fs root).1 = some (.recursive f l n)) :
+    ∃ path, path.headD [] = f ∧ n ∈ path ∧
+      path ≠ [] ∧ path.getLast? = some root ∧ path.Nodup ∧ IncludeChain fs path ∧
+      (∀ x, x ∈ path → (fs.lookup x).isSome = true) ∧
+      (fs.lookup n).isSome = true ∧
+      ∃ t, fs.lookup f = some t ∧ 1 ≤ l ∧
+        ∃ raw, (Lex.lines t).1[l - 1]? = some raw ∧ Lex.fields (Lex.stripComment raw) = [kwINCLUDE, n] :=
+  parseFile_recursive_shape cfg ign fs root f n l h hr
+
+/-- (repaired) an open error at `{File f, Line l}` for the name `n`: `n` is not a file and line
+    `l` of `f` is `$INCLUDE n` -/
+theorem open_error_names_missing_file (cfg : Cfg) (ign : Bool) (fs : FS) (root f n : Bytes) (l : Nat)
+    (h : cfg.includePath = true) (hr : (parseFile cfg ign fs root).1 = some (.openErr f l n)) :
+    fs.lookup n = none ∧
+      ∃ t, fs.lookup f = some t ∧ 1 ≤ l ∧
+        ∃ raw, (Lex.lines t).1[l - 1]? = some raw ∧ Lex.fields (Lex.stripComment raw) = [kwINCLUDE, n] :=
+  parseFile_openErr_shape cfg ign fs root f n l h hr
+
+/-- (repaired) every failure is the report of a well-formed first fault (`Fault.WellFormed`: a
+    legitimate include path from the root, and a line that is what the kind of fault says) -/
+theorem failure_is_wellformed_fault (cfg : Cfg) (ign : Bool) (fs : FS) (root text : Bytes)
+    (h : cfg.includePath = true) (hl : fs.lookup root = some text) (e : Failure)
+    (he : (parseFile cfg ign fs root).1 = some e) :
+    ∃ flt st', WalkFile cfg ign fs root (some flt, st') ∧ e = flt.report ∧ flt.WellFormed fs root :=
+  parseFile_fault_wf cfg ign fs root text h hl e he
+
+/-- the SPEC's fault `includeOnPath n` is a cycle of the include graph through `n` that is reachable
+    from the root (about `Walk` and the graph only; the parser is not mentioned) -/
+theorem fault_on_path_is_cycle (cfg : Cfg) (ign : Bool) (fs : FS) (root n : Bytes) (flt : Fault) (st' : St)
+    (hw : WalkFile cfg ign fs root (some flt, st')) (hk : flt.kind = .includeOnPath n) : HasCycle fs root :=
+  walkFile_onPath_hasCycle hw hk
+
+/-- (repaired) no false cycle on a DAG: diamonds and repeated includes are not reported
+    (the audit's name for `acyclic_not_reported`) -/
+theorem no_false_cycle_on_dag (cfg : Cfg) (ign : Bool) (fs : FS) (root : Bytes) (h : cfg.includePath = true)
+    (hac : ¬ HasCycle fs root) (f n : Bytes) (l : Nat) :
+    (parseFile cfg ign fs root).1 ≠ some (.recursive f l n) :=
+  acyclic_not_reported cfg ign fs root h hac f n l
+
+/-- (repaired) a graph with a reachable cycle is never accepted (contrapositive of `ok_implies_acyclic`);
+    WHICH error is returned is the first fault's: see `recursive_iff_first_fault_on_path` -/
+theorem cycle_never_accepted (cfg : Cfg) (ign : Bool) (fs : FS) (root : Bytes) (h : cfg.includePath = true)
+    (hcyc : HasCycle fs root) : (parseFile cfg ign fs root).1 ≠ none :=
+  parseFile_cycle_not_ok cfg ign fs root h hcyc
+
+/-- (repaired, fix #11) on a pure include graph - every file scans, every line is blank/comment or a
+    `$INCLUDE` of an existing file: the exhaustive family "all include graphs on up to 4 files" of
+    the differential test - a RecursiveIncludeError is reported IF AND ONLY IF a cycle is reachable
+    from the root -/
+theorem pure_graph_recursive_iff (cfg : Cfg) (ign : Bool) (fs : FS) (root : Bytes) (h10 : cfg.includePath = true)
+    (h11 : cfg.skipNoFields = true) (hp : PureIncludeFS fs) (hroot : (fs.lookup root).isSome = true) :
+    (∃ f l n, (parseFile cfg ign fs root).1 = some (.recursive f l n)) ↔ HasCycle fs root :=
+  RV.DictParser.pure_graph_recursive_iff cfg ign fs root h10 h11 hp hroot
+
+/-- … and the parse succeeds if and only if there is none -/
+theorem pure_graph_ok_iff (cfg : Cfg) (ign : Bool) (fs : FS) (root : Bytes) (h10 : cfg.includePath = true)
+    (h11 : cfg.skipNoFields = true) (hp : PureIncludeFS fs) (hroot : (fs.lookup root).isSome = true) :
+    (parseFile cfg ign fs root).1 = none ↔ ¬ HasCycle fs root :=
+  RV.DictParser.pure_graph_ok_iff cfg ign fs root h10 h11 hp hroot
+
+/-! ### Logs over all outcomes: well nested; closed once or twice; exactly once on error paths
+
+`Nested` (RV.Proofs.DictWalk): every successfully opened file is closed, in LIFO order, once - or
+twice.  "Closed exactly once" is FALSE of parser.go for a file that is included successfully: it is
+closed by the explicit `incFile.Close()` (parser.go line 233) and again by the deferred `Close()` of
+line 214 (the second `Close` of an `*os.File` returns an error that the `defer` drops).  It is TRUE
+on every error path and for the root file.  What is true is proved: -/
+
+/-- both include rules, every outcome: the log is well nested -/
+theorem log_well_nested (cfg : Cfg) (ign : Bool) (fs : FS) (root : Bytes) :
+    Nested (parseFile cfg ign fs root).2.log :=
+  parseFile_nested cfg ign fs root
+
+/-- also for the current rule at every fuel -/
+theorem log_well_nested_current (cfg : Cfg) (ign : Bool) (fs : FS) (root file text : Bytes) (fuel : Nat) :
+    Nested (parseFileCur cfg ign fs root fuel file text {}).2.log :=
+  parseFileCur_nested_log cfg ign fs root file text fuel
+
+/-- the root file is opened first and closed last, once; in between the log is well nested -/
+theorem log_root_bracket (cfg : Cfg) (ign : Bool) (fs : FS) (root text : Bytes) (hl : fs.lookup root = some text) :
+    ∃ w, Nested w ∧ (parseFile cfg ign fs root).2.log = Event.opened root :: (w ++ [Event.closed root]) :=
+  parseFile_root_bracket cfg ign fs root text hl
+
+/-- every name is closed at least as often as it is opened, and at most twice as often -/
+theorem log_close_counts (cfg : Cfg) (ign : Bool) (fs : FS) (root n : Bytes) :
+    (parseFile cfg ign fs root).2.log.count (Event.opened n) ≤ (parseFile cfg ign fs root).2.log.count (Event.closed n) ∧
+    (parseFile cfg ign fs root).2.log.count (Event.closed n) ≤ 2 * (parseFile cfg ign fs root).2.log.count (Event.opened n) :=
+  parseFile_close_counts cfg ign fs root n
+
+/-- well-nestedness implies the older `OpensClosed` -/
+theorem nested_implies_opens_closed (w : List Event) (h : Nested w) : OpensClosed w :=
+  h.opensClosed
+
+/-- (repaired) a failing run: the log is `Unwound` along the include path of the first fault, root
+    included - every file on that path is opened once and, after the fault, closed EXACTLY ONCE,
+    innermost first; the stretches in between are well nested -/
+theorem failure_log_unwound (cfg : Cfg) (ign : Bool) (fs : FS) (root text : Bytes) (h : cfg.includePath = true)
+    (hl : fs.lookup root = some text) (e : Failure) (he : (parseFile cfg ign fs root).1 = some e) :
+    ∃ flt st', WalkFile cfg ign fs root (some flt, st') ∧ e = flt.report ∧
+      Unwound flt.path.reverse (parseFile cfg ign fs root).2.log :=
+  parseFile_fail_log cfg ign fs root text h hl e he
+
 /-! ### Non-vacuity -/
+
+/-- root → a → b → a: the first fault is `$INCLUDE a` at line 1 of `b`, the path being `[b, a, root]` -/
+example (ign : Bool) : ∃ st', WalkFile Cfg.repaired ign fsNonRootCycle nmRoot
+    (some ⟨[nmB, nmA, nmRoot], 1, .includeOnPath nmA⟩, st') := walk_nonRootCycle ign
+example : (⟨[nmB, nmA, nmRoot], 1, .includeOnPath nmA⟩ : Fault).report = .recursive nmB 1 nmA := rfl
+example : PureIncludeFS fsNonRootCycle := fsNonRootCycle_pure
+/-- … so, by the equivalence for pure graphs alone, the cycle is reported -/
+example (ign : Bool) : ∃ f l n, (parseFile Cfg.repaired ign fsNonRootCycle nmRoot).1 = some (.recursive f l n) :=
+  (pure_graph_recursive_iff Cfg.repaired ign fsNonRootCycle nmRoot rfl rfl fsNonRootCycle_pure (by decide)).mpr
+    fsNonRootCycle_cyclic
+
+/-- a pure diamond with a repeated include: walked to the end; accepted; hence acyclic -/
+example : PureIncludeFS fsPureDiamond := fsPureDiamond_pure
+example (ign : Bool) : ∃ st', WalkFile Cfg.repaired ign fsPureDiamond nmRoot (none, st') := walk_pureDiamond ign
+example (ign : Bool) : (parseFile Cfg.repaired ign fsPureDiamond nmRoot).1 = none := fsPureDiamond_ok ign
+example : ¬ HasCycle fsPureDiamond nmRoot := fsPureDiamond_acyclic
+
+/-- an earlier fault wins: the root's line 1 is refused, its line 2 is `$INCLUDE root`.  The graph
+    HAS a cycle, the parse fails (`cycle_never_accepted`), but the report is the first fault - the
+    refused line - and NOT a RecursiveIncludeError -/
+example : HasCycle fsBadThenCycle nmRoot := fsBadThenCycle_cyclic
+example (ign : Bool) : WalkFile Cfg.repaired ign fsBadThenCycle nmRoot
+    (some ⟨[nmRoot], 1, .badLine .unknownLine⟩, St.opened {} nmRoot) := walk_badThenCycle ign
+example (ign : Bool) : (parseFile Cfg.repaired ign fsBadThenCycle nmRoot).1 = some (.decl .unknownLine nmRoot 1) :=
+  fsBadThenCycle_result ign
+example (ign : Bool) (f n : Bytes) (l : Nat) :
+    (parseFile Cfg.repaired ign fsBadThenCycle nmRoot).1 ≠ some (.recursive f l n) := by
+  rw [fsBadThenCycle_result]; simp
+
+/-- `Nested` discriminates: an unclosed open and crossed brackets are not well nested -/
+example : ¬ Nested [Event.opened nmA] := not_nested_unclosed nmA
+example : ¬ Nested [Event.opened nmA, Event.opened nmB, Event.closed nmA, Event.closed nmB] := not_nested_crossed
+example : Nested [Event.opened nmRoot, Event.opened nmA, Event.closed nmA, Event.closed nmA, Event.closed nmRoot] :=
+  Nested.file nmRoot false (Nested.file nmA true Nested.nil Nested.nil) Nested.nil
 
 example : ¬ HasCycle fsDiamond nmRoot := fsDiamond_acyclic
 example : (parseFile Cfg.repaired false fsDiamond nmRoot).1 = none := fsDiamond_ok
 example : HasCycle fsNonRootCycle nmRoot := fsNonRootCycle_cyclic
+
+/-! ### Never panics: every index expression is guarded
+
+  The model has no panic outcome: its list accesses are total (`fields.getD i []`, `f.getD 7 0`,
+  `t.take 7`, ...).  That this loses nothing is argued in RV.Proofs.DictGuards, in two steps.
+  (1) Field counts: a branch of the `switch` of `parse` (parser.go 76-255) is entered only with the
+  field count that its code - `parseAttribute` / `parseValue` / `parseVendor` included - indexes;
+  a keyword line with any other count is UnknownLineError.  (2) `Guarded`: a copy of the per-line
+  code in which every Go index expression `x[i]`, slice expression `x[a:b]` and indexed assignment
+  is PARTIAL (`none` = run-time panic: `Guarded.at?`, `Guarded.slice`, `Guarded.setAt?`, with Go `int`
+  indices) and `&&` / `||` short-circuit left to right.  The copy never yields `none`, and equals the
+  model's function, for ALL inputs.
+  Scope: index, slice and indexed-assignment expressions of parser.go 64-481.  Library calls
+  (`strings.*`, `strconv.*`, `append`, map operations, `bufio`) are taken as non-panicking; the
+  pointers the Go code dereferences (`attr`, `vendor`, `existing`, `vendorBlock`) are nil-checked
+  there; a nil `p.Opener` is the caller's responsibility.  Unbounded recursion is excluded by
+  `fixed_never_out_of_fuel` above (the repaired walk is a total function). -/
+
+/-- the `switch` of one line (parser.go 76-255, with `parseAttribute`, `parseOID`, `parseValue`,
+    `parseVendor`), every `fields[i]`, `f[3][j]`, `f[3][a:b]`, `s[i+1]`, `o[len(o)-1]` partial:
+    no panic on any field list, and the result is the model's `dispatch` -/
+theorem line_switch_never_panics (cfg : Cfg) (ign : Bool) (inc : IncludeHandler) (file : Bytes) (lineNo : Nat)
+    (vb : Option Bytes) (st : St) (fields : List Bytes) :
+    Guarded.dispatchG cfg ign inc file lineNo vb st fields = some (dispatch cfg ign inc file lineNo vb st fields) :=
+  Guarded.dispatchG_eq cfg ign inc file lineNo vb st fields
+
+/-- one iteration of the scan loop (parser.go 64-255; `line[:idx]` partial as well) -/
+theorem scan_step_never_panics (cfg : Cfg) (ign : Bool) (inc : IncludeHandler) (file : Bytes) (lineNo : Nat)
+    (vb : Option Bytes) (st : St) (raw : Bytes) :
+    Guarded.stepLineG cfg ign inc file lineNo vb st raw = some (stepLine cfg ign inc file lineNo vb st raw) :=
+  Guarded.stepLineG_eq cfg ign inc file lineNo vb st raw
+
+theorem scan_step_is_some (cfg : Cfg) (ign : Bool) (inc : IncludeHandler) (file : Bytes) (lineNo : Nat)
+    (vb : Option Bytes) (st : St) (raw : Bytes) :
+    (Guarded.stepLineG cfg ign inc file lineNo vb st raw).isSome = true :=
+  Guarded.stepLine_never_panics cfg ign inc file lineNo vb st raw
+
+/-- `parseOID` (parser.go 282-306): `s[i+1]` and `o[len(o)-1]` are in range for every byte string;
+    the result is the model's OID, `nil` (`[]`) where the model has `none` -/
+theorem parseOID_never_panics (cfg : Cfg) (s : Bytes) :
+    Guarded.parseOIDG cfg s = some ((parseOID cfg s).getD []) :=
+  Guarded.parseOIDG_eq cfg s
+
+/-- `parseAttribute` is only called with 4 or 5 fields (`f[1]`, `f[2]`, `f[3]`; `f[4]` under `len(f) >= 5`) -/
+theorem parseAttribute_never_panics (cfg : Cfg) (f : List Bytes) (h : f.length = 4 ∨ f.length = 5) :
+    Guarded.parseAttributeG cfg f = some (parseAttribute cfg (f.getD 1 []) (f.getD 2 []) (f.getD 3 [])
+      (if f.length == 5 then some (f.getD 4 []) else none)) :=
+  Guarded.parseAttributeG_eq cfg f h
+
+/-- the type switch: `f[3][:7]`, `f[3][len(f[3])-1]`, `f[3][7:len(f[3])-1]` sit behind `len(f[3]) > 8` -/
+theorem parseType_never_panics (t : Bytes) : Guarded.parseTypeG t = some (parseType t) :=
+  Guarded.parseTypeG_eq t
+
+/-- `parseValue` is only called with 4 fields; `f[3][2:]` sits behind `HasPrefix(f[3], "0x")` -/
+theorem parseValue_never_panics (f : List Bytes) (h : f.length = 4) :
+    Guarded.parseValueG f = some (parseValue (f.getD 1 []) (f.getD 2 []) (f.getD 3 [])) :=
+  Guarded.parseValueG_eq f h
+
+/-- `parseVendor` is only called with 3 or 4 fields (`f[3]` under `len(f) == 4`) -/
+theorem parseVendor_never_panics (cfg : Cfg) (f : List Bytes) (h : f.length = 3 ∨ f.length = 4) :
+    Guarded.parseVendorG cfg f = some (parseVendor cfg (f.getD 1 []) (f.getD 2 [])
+      (if f.length == 4 then some (f.getD 3 []) else none)) :=
+  Guarded.parseVendorG_eq cfg f h
+
+/-- the `format=t,l` test (parser.go 469): `f[3][8]`, `f[3][7]`, `f[3][9]` are evaluated only after
+    `len(f[3]) != 10` was found false; a field of any other length is refused without them -/
+theorem vendor_format_never_panics (cfg : Cfg) (s : Bytes) : Guarded.formatOKG cfg s = some (formatOK cfg s) :=
+  Guarded.formatOKG_eq cfg s
+
+theorem vendor_format_wrong_length (cfg : Cfg) (s : Bytes) (h : s.length ≠ 10) :
+    Guarded.formatOKG cfg s = some false ∧ formatOK cfg s = false :=
+  ⟨Guarded.formatOKG_short cfg s h, Guarded.formatOK_inspects_after_length cfg s h⟩
+
+/-- a branch of the `switch` is entered only with the field count its code indexes:
+    `maxIndex` = the largest `i` with `fields[i]` evaluated unconditionally in the branch -/
+theorem branch_index_in_range (fields : List Bytes) (b : Branch) (h : branchOf fields = b) :
+    ∀ i, maxIndex b = some i → i < fields.length :=
+  branch_indices_in_range fields b h
+
+/-- ... and `f[4]` (ATTRIBUTE, under `len(f) >= 5`), `f[3]` (VENDOR, under `len(f) == 4`) under their condition -/
+theorem branch_cond_index_in_range (fields : List Bytes) (b : Branch) (h : branchOf fields = b) :
+    ∀ i c, condIndex b = some (i, c) → c fields.length = true → i < fields.length :=
+  branch_cond_indices_in_range fields b h
+
+/-- the field counts of the branches: ATTRIBUTE 4|5, VALUE 4, VENDOR 3|4, BEGIN-VENDOR / END-VENDOR / $INCLUDE 2 -/
+theorem branch_field_count (fields : List Bytes) : arityOK (branchOf fields) fields.length = true :=
+  branch_arity fields
+
+/-- a keyword with any other field count is UnknownLineError, as is any other first field and a line without fields -/
+theorem wrong_field_count_unknown_line (cfg : Cfg) (ign : Bool) (inc : IncludeHandler) (file : Bytes) (lineNo : Nat)
+    (vb : Option Bytes) (st : St) (fields : List Bytes) (h : branchOf fields = .unknown) :
+    dispatch cfg ign inc file lineNo vb st fields = .fail (.decl .unknownLine file lineNo) st :=
+  dispatch_unknown_branch cfg ign inc file lineNo vb st fields h
+
+theorem attribute_field_count (cfg : Cfg) (ign : Bool) (inc : IncludeHandler) (file : Bytes) (lineNo : Nat)
+    (vb : Option Bytes) (st : St) (fields : List Bytes)
+    (hk : fields.headD [] = kwATTRIBUTE) (h4 : fields.length ≠ 4) (h5 : fields.length ≠ 5) :
+    dispatch cfg ign inc file lineNo vb st fields = .fail (.decl .unknownLine file lineNo) st :=
+  dispatch_attribute_arity cfg ign inc file lineNo vb st fields hk h4 h5
+
+theorem value_field_count (cfg : Cfg) (ign : Bool) (inc : IncludeHandler) (file : Bytes) (lineNo : Nat)
+    (vb : Option Bytes) (st : St) (fields : List Bytes) (hk : fields.headD [] = kwVALUE) (h4 : fields.length ≠ 4) :
+    dispatch cfg ign inc file lineNo vb st fields = .fail (.decl .unknownLine file lineNo) st :=
+  dispatch_value_arity cfg ign inc file lineNo vb st fields hk h4
+
+theorem vendor_field_count (cfg : Cfg) (ign : Bool) (inc : IncludeHandler) (file : Bytes) (lineNo : Nat)
+    (vb : Option Bytes) (st : St) (fields : List Bytes)
+    (hk : fields.headD [] = kwVENDOR) (h3 : fields.length ≠ 3) (h4 : fields.length ≠ 4) :
+    dispatch cfg ign inc file lineNo vb st fields = .fail (.decl .unknownLine file lineNo) st :=
+  dispatch_vendor_arity cfg ign inc file lineNo vb st fields hk h3 h4
+
+theorem begin_vendor_field_count (cfg : Cfg) (ign : Bool) (inc : IncludeHandler) (file : Bytes) (lineNo : Nat)
+    (vb : Option Bytes) (st : St) (fields : List Bytes) (hk : fields.headD [] = kwBEGIN) (h2 : fields.length ≠ 2) :
+    dispatch cfg ign inc file lineNo vb st fields = .fail (.decl .unknownLine file lineNo) st :=
+  dispatch_begin_arity cfg ign inc file lineNo vb st fields hk h2
+
+theorem end_vendor_field_count (cfg : Cfg) (ign : Bool) (inc : IncludeHandler) (file : Bytes) (lineNo : Nat)
+    (vb : Option Bytes) (st : St) (fields : List Bytes) (hk : fields.headD [] = kwEND) (h2 : fields.length ≠ 2) :
+    dispatch cfg ign inc file lineNo vb st fields = .fail (.decl .unknownLine file lineNo) st :=
+  dispatch_end_arity cfg ign inc file lineNo vb st fields hk h2
+
+theorem include_field_count (cfg : Cfg) (ign : Bool) (inc : IncludeHandler) (file : Bytes) (lineNo : Nat)
+    (vb : Option Bytes) (st : St) (fields : List Bytes) (hk : fields.headD [] = kwINCLUDE) (h2 : fields.length ≠ 2) :
+    dispatch cfg ign inc file lineNo vb st fields = .fail (.decl .unknownLine file lineNo) st :=
+  dispatch_include_arity cfg ign inc file lineNo vb st fields hk h2
+
+theorem other_keyword_unknown_line (cfg : Cfg) (ign : Bool) (inc : IncludeHandler) (file : Bytes) (lineNo : Nat)
+    (vb : Option Bytes) (st : St) (fields : List Bytes)
+    (h1 : fields.headD [] ≠ kwATTRIBUTE) (h2 : fields.headD [] ≠ kwVALUE) (h3 : fields.headD [] ≠ kwVENDOR)
+    (h4 : fields.headD [] ≠ kwBEGIN) (h5 : fields.headD [] ≠ kwEND) (h6 : fields.headD [] ≠ kwINCLUDE) :
+    dispatch cfg ign inc file lineNo vb st fields = .fail (.decl .unknownLine file lineNo) st :=
+  dispatch_unknown_keyword cfg ign inc file lineNo vb st fields h1 h2 h3 h4 h5 h6
+
+/-- (without fix #11) a line of white space only reaches the `switch` with no field: no `fields[0]`, UnknownLineError -/
+theorem no_fields_unknown_line (cfg : Cfg) (ign : Bool) (inc : IncludeHandler) (file : Bytes) (lineNo : Nat)
+    (vb : Option Bytes) (st : St) :
+    dispatch cfg ign inc file lineNo vb st [] = .fail (.decl .unknownLine file lineNo) st :=
+  dispatch_no_fields cfg ign inc file lineNo vb st
+
+/-- non-vacuity: the panic-aware primitives do panic where Go would -/
+example : Guarded.idx [[1], [2], [3]] 3 = none ∧ Guarded.byteAt [1, 2, 3] 9 = none ∧ Guarded.slice [1, 2, 3] 2 1 = none ∧
+    Guarded.byteAt [] (Guarded.len ([] : Bytes) - 1) = none := by decide
+/-- `VENDOR x 1 f`: a fourth field shorter than 10 bytes is refused without touching `f[3][7..9]` -/
+example : Guarded.formatOKG Cfg.tree [102] = some false := Guarded.formatOKG_short _ _ (by decide)
 
 end RV.C15
